@@ -1,5 +1,5 @@
 From Coq Require Extraction ExtrOcamlBasic.
-From PV Require Import Lib.Bytes Model.MapIter.
+From PV Require Import Lib.Bytes Model.MapIter Model.CvsEntries.
 Definition keys_sorted_of (ks : list str) : list str := keys_sorted (map (fun k => (k, tt)) ks).
 Definition keys_joined_of (ks : list str) : str := keys_joined (map (fun k => (k, tt)) ks).
 Definition for_each_of (ks : list str) : list str :=
@@ -7,4 +7,9 @@ Definition for_each_of (ks : list str) : list str :=
 (* oracle/common.ml refers to the types z and nat *)
 Definition c07_z : Z := 0%Z.
 Definition c07_nat : nat := 0%nat.
-Extraction "C07_model.ml" keys_sorted_of keys_joined_of for_each_of str_cmp c07_z c07_nat.
+(* two environments for the oracle: UTC and a zone 5 h 45 min east whose user, home, locale, cwd and umask differ too *)
+Definition c07_env_utc : env := mk_env (fun _ => 0%Z) [] [] [] [] 18%N.
+Definition c07_env_other : env := mk_env (fun _ => 20700%Z) [120%N] [47%N; 104%N] [100%N; 101%N] [47%N; 108%N] 63%N.
+Extraction "C07_model.ml" keys_sorted_of keys_joined_of for_each_of str_cmp c07_z c07_nat
+  parse_entry_line load_entries entries_lookup ansic_utc civil_from_days days_from_civil weekday_of_days
+  is_locally_modified is_locally_modified_local c07_env_utc c07_env_other.
